@@ -83,7 +83,11 @@ where
     F: FnOnce() -> T + UnwindSafe,
 {
     if panic_catcher_start_catching() {
+        #[cfg(feature = "verif")]
+        crate::verif::point(crate::verif::Site::CatchAfterStart);
         let result = std::panic::catch_unwind(f);
+        #[cfg(feature = "verif")]
+        crate::verif::point(crate::verif::Site::CatchAfterUnwind);
         panic_catcher_stop_catching();
         match result {
             Ok(res) => Ok(res),
@@ -129,7 +133,11 @@ pub fn panic_catcher_set_hook() {
     if PANIC_CATCHER_HOOK_SET.load(Ordering::SeqCst) {
         return;
     }
+    #[cfg(feature = "verif")]
+    crate::verif::point(crate::verif::Site::SetHookAfterLoad);
     let next = std::panic::take_hook();
+    #[cfg(feature = "verif")]
+    crate::verif::point(crate::verif::Site::SetHookAfterTake);
     std::panic::set_hook(Box::new(move |info| {
         if PANIC_CATCHER_LEVEL.with(|enabled| enabled.get() > 0) {
             PANIC_CATCHER_BACKTRACE.with(|bt| {
@@ -148,7 +156,24 @@ pub fn panic_catcher_set_hook() {
             }
         }
     }));
+    #[cfg(feature = "verif")]
+    crate::verif::point(crate::verif::Site::SetHookAfterSet);
     PANIC_CATCHER_HOOK_SET.store(true, Ordering::SeqCst);
+}
+
+#[cfg(feature = "verif")]
+pub(crate) fn verif_level() -> u64 {
+    PANIC_CATCHER_LEVEL.with(|b| b.get())
+}
+
+#[cfg(feature = "verif")]
+pub(crate) fn verif_enabled() -> bool {
+    PANIC_CATCHER_ENABLED.with(|b| b.get())
+}
+
+#[cfg(feature = "verif")]
+pub(crate) fn verif_reset_hook_flag() {
+    PANIC_CATCHER_HOOK_SET.store(false, Ordering::SeqCst);
 }
 
 /// Enables the panic catcher.
